@@ -79,7 +79,7 @@ pub const PRODUCTIONS: &[&str] = &[
     "empty-branch", "single-char-escape", "escape-n-r-t", "normal-char", "dot", "neg-char-group", "pos-char-group", "class-subtraction", "class-char", "class-range", "class-escape-item",
     "category-escape", "block-escape", "multi-char-escape", "anchor-^", "anchor-$", "non-capturing-group", "capturing-group", "alternation", "sequence", "quantifier-?", "quantifier-*",
     "quantifier-+", "quantifier-{n}", "quantifier-{n,}", "quantifier-{n,m}", "reluctant", "quantified-anchor", "quantified-anchor-reluctant", "back-reference", "back-reference-2-digits",
-    "empty-group", "hyphen-at-class-edge", "every-category-name", "every-block-name",
+    "empty-group", "hyphen-at-class-edge", "every-category-name", "every-block-name", "flag-x-whitespace",
 ];
 
 fn valid_ast() -> BoxedStrategy<Case07> {
@@ -119,6 +119,7 @@ fn valid_backref10() -> BoxedStrategy<Case07> {
 
 fn valid_fixed() -> Vec<Case07> {
     let mut v = vec![];
+    let mut xs = vec![];
     let mut add = |p: &str, why: &str| v.push(Case07::Valid { pattern: p.to_string(), flags: String::new(), why: why.to_string() });
     for p in ["()", "(?:)", "a()b", "(|)", "(?:|a)", "||", "|", "", "a|", "|a", "(a|)"] {
         add(p, "empty-group;empty-branch");
@@ -139,6 +140,9 @@ fn valid_fixed() -> Vec<Case07> {
         add(&format!("[{e}]"), "single-char-escape;class-escape-item");
         add(&format!("a{e}+b"), "single-char-escape");
     }
+    for p in ["[a b]", "( ?: a )", "a { 2 , 3 }", "\\ p{ L u }", "a * ?", "[a-z -[aeiou]] +", "( a ) \\ 1", "^ a $", "[ ]", "\\ [ a \\ ]"] {
+        xs.push(Case07::Valid { pattern: p.to_string(), flags: "x".to_string(), why: "flag-x-whitespace".to_string() });
+    }
     for e in ["\\s", "\\S", "\\i", "\\I", "\\c", "\\C", "\\d", "\\D", "\\w", "\\W"] {
         add(e, "multi-char-escape");
         add(&format!("[{e}a]"), "multi-char-escape;class-escape-item");
@@ -152,6 +156,7 @@ fn valid_fixed() -> Vec<Case07> {
         add(&format!("\\p{{Is{n}}}"), "every-block-name;block-escape");
         add(&format!("\\P{{Is{n}}}+"), "every-block-name;block-escape");
     }
+    v.extend(xs);
     v
 }
 
@@ -160,6 +165,7 @@ const QUANTS: &[&str] = &["?", "*", "+", "{2}", "{1,2}", "{2,}", "??", "*?", "+?
 
 fn invalid_fixed() -> Vec<Case07> {
     let mut v = vec![];
+    let mut xs = vec![];
     let mut add = |p: String, why: &str| v.push(Case07::Invalid { pattern: p, flags: String::new(), why: why.to_string() });
     // quantifier applied to a quantifier: piece ::= atom quantifier?  (a following '?' only makes the first one reluctant)
     for a in ATOMS {
@@ -193,7 +199,7 @@ fn invalid_fixed() -> Vec<Case07> {
     }
     // unbalanced or misplaced brackets
     for p in [
-        "(", ")", "a(", "a)", "(a", "a)b", "((a)", "(a))", "(?:a", "(?:", "(?", "a|(b", "[", "]", "a]", "[a", "[a-", "[]", "[^]", "a[]", "[^", "[a[b]]", "[[a]]", "[a-[b]", "[a-[b]c]", "[-[a]]", "[^-[a]]", "}", "a}", "a{2}}",
+        "(", ")", "a(", "a)", "(a", "a)b", "((a)", "(a))", "(?:a", "(?:", "(?", "a|(b", "[", "]", "a]", "[a", "[a-", "[]", "[^]", "a[]", "[^", "[a[b]]", "[[a]]", "[a-[b]", "[a-[b]c]", "[a-[b] ]", "[a-z-[aeiou]\t]+", "[-[a]]", "[^-[a]]", "}", "a}", "a{2}}",
         "{", "{2}", "{2}a",
     ] {
         add(p.to_string(), "unbalanced or misplaced ( ) [ ] { }");
@@ -217,10 +223,16 @@ fn invalid_fixed() -> Vec<Case07> {
             add(p.to_string(), "reversed range or multi-character escape as a range end point");
         }
     }
+    // flag x: the grammar applies to the pattern with whitespace outside class expressions removed; whitespace inside a
+    // class expression stays, so nothing may stand between the ] of a subtraction and the ] of its group
+    for p in ["[a-[b] ]", "[a-z-[aeiou]\t]+", "x[\\p{L}-[\\p{Lu}]\n]y", "a * *", "a { 3 , 2 }", "( ? = a )", "\\ q", "a | * b", "( a", "\\p{ C s }"] {
+        xs.push(Case07::Invalid { pattern: p.to_string(), flags: "x".to_string(), why: "invalid after removing whitespace outside classes (whitespace inside a class is kept)".to_string() });
+    }
     // back-references
     for p in ["\\1", "a\\1", "(a)\\2", "(a\\1)", "(a)(b\\2)", "((a)\\1)", "(a)[\\1]", "\\0", "(a)\\0", "(a)|\\2", "(?:a)\\1", "(a)\\1\\2", "(a)(b)(c)(d)(e)(f)(g)(h)(i)(j\\10)", "\\10"] {
         add(p.to_string(), "back-reference to a group that does not exist, is not yet closed, or inside a class; \\0");
     }
+    v.extend(xs);
     v
 }
 
